@@ -187,6 +187,8 @@ def _district_q_candidates(rng, g, T, V, di, want):
         out.append(("pprob", eP(T, Z, pop=1001)))
     if "prob_pa" in want and block:
         out.append(("prob_pa", eP(T, sorted(anc - set(T)))))
+    if "pprob_pa" in want and block:
+        out.append(("pprob_pa", eP(T, sorted(anc - set(T)), pop=1004)))
     if "prob_redundant" in want and block and Z:
         # P(T, W | Z) with W part of Z denotes the same function; outside ProbShape (oracle only)
         W = [z for z in Z if rng.random() < 0.5] or Z[:1]
@@ -327,6 +329,332 @@ def _q_of_some_set(rng, V, di, bi, dists):
     return A, eSum(sorted(set(T) - A), q), "distanc_" + kind
 
 
+# ------------------------------------------------------------------------------------------ structured generators
+
+ALL_QFORMS = {"prob", "pprob", "prob_pa", "pprob_pa", "prob_redundant", "prod", "pprod", "frac", "sum", "iprob",
+              "iprob_all", "ipprob", "iprob_mixed"}
+
+
+def identify_trace(di, bi, Cs, T):
+    """Tian-Pearl IDENTIFY on SETS only (Figure 7 of the paper, no expressions): the list of recursive steps
+    (T, A, T') and the verdict 'ok' (A = C reached) / 'fail' (A = T reached).  Used to steer the generators and to tag
+    the cases by recursion depth; never used as an oracle."""
+    Cs, T = set(Cs), set(T)
+    steps = []
+    while True:
+        A = S.ancestors_in(di, T, Cs)
+        if A == Cs:
+            return steps, "ok"
+        if A == T:
+            return steps, "fail"
+        Tp = next(set(d) for d in S.districts_of(bi, A) if Cs <= d)
+        steps.append((sorted(T), sorted(A), sorted(Tp)))
+        T = Tp
+
+
+def _orders(rng, V, di, k, must=None):
+    """up to k linear extensions of (V, di): all of them when there are at most k; `must` (a predicate on orders)
+    is honoured by at least one of the chosen orders whenever some linear extension satisfies it"""
+    alle = S.all_linear_extensions(V, di, limit=240)
+    if len(alle) <= k:
+        return alle
+    pick = rng.sample(alle, k)
+    if must is not None and not any(must(o) for o in pick):
+        good = [o for o in alle if must(o)]
+        if good:
+            pick[-1] = rng.choice(good)
+    return pick
+
+
+def _grow_district(rng, depth, base, csize=None):
+    """a single-district T (local ids 0..k-1) and C inside it whose IDENTIFY trace has exactly `depth` recursive
+    steps: every level adds a connector p (ancestor of C whose only bidirected edge goes to y) and a non-ancestor y
+    (removed by A = An(C)), so that A = T' u {p} and the district of C in G_A is the previous T'.
+    base: 'AeqC' (T0 = C u {non-ancestor}), 'TeqC' (T0 = C), 'fail' (T0 = C u {a0}, a0 -> C, a0 <-> C: A = T0)."""
+    csize = rng.choice([1, 1, 2, 3]) if csize is None else csize
+    Cs = list(range(csize))
+    di, bi = set(), set()
+    for i in range(1, csize):
+        bi.add((rng.randrange(i), i))
+    for i in range(csize):
+        for j in range(i + 1, csize):
+            if rng.random() < 0.4:
+                di.add((i, j))
+    T = list(Cs)
+    n = csize
+    if base == "AeqC":
+        y = n
+        n += 1
+        bi.add((rng.choice(Cs), y))
+        for c in Cs:
+            if rng.random() < 0.5:
+                di.add((c, y))
+        T.append(y)
+    elif base == "fail":
+        a = n
+        n += 1
+        bi.add((rng.choice(Cs), a))
+        di.add((a, rng.choice(Cs)))
+        T.append(a)
+    for _ in range(depth):
+        anc = S.ancestors_in(di, T, Cs)
+        nonanc = [v for v in T if v not in anc]
+        p, y = n, n + 1
+        n += 2
+        di.add((p, rng.choice(sorted(anc))))
+        for v in nonanc:
+            di.add((v, p))
+        bi.add((p, y))
+        bi.add((y, rng.choice(T)))
+        for v in T + [p]:
+            if rng.random() < 0.3:
+                di.add((v, y))
+        T += [p, y]
+    return T, sorted(di), sorted(bi), Cs
+
+
+def _decorate(rng, T, di, bi, Cs, depth, verdict, tries):
+    """random extra edges inside T that keep the graph acyclic and the IDENTIFY trace (depth, verdict) unchanged"""
+    di, bi = list(di), list(bi)
+    for _ in range(tries if len(T) >= 2 else 0):
+        a, b = rng.sample(T, 2)
+        if rng.random() < 0.6:
+            if (a, b) in di or (b, a) in di:
+                continue
+            cand_di, cand_bi = di + [(a, b)], bi
+        else:
+            if (a, b) in bi or (b, a) in bi:
+                continue
+            cand_di, cand_bi = di, bi + [(a, b)]
+        if not S.is_acyclic(T, cand_di):
+            continue
+        st, vd = identify_trace(cand_di, cand_bi, Cs, T)
+        if len(st) == depth and vd == verdict:
+            di, bi = cand_di, cand_bi
+    return di, bi
+
+
+def _eval_cost(V, di, bi):
+    """work of the exact oracle on an all-binary model: per district 2^(members + parents + latents) * members"""
+    tot = 0
+    for d in S.districts_of(bi, V):
+        W = set(d) | {u for (u, w) in di if w in d}
+        lat = sum(1 for e in bi if set(e) <= set(d))
+        tot += (2 ** (len(W) + lat)) * len(d)
+    return tot + 4 ** len(V)
+
+
+def _structured_graph(rng, depth, nz, nd):
+    """(g, T, C, depth, verdict) in integer space: a district T grown to the wanted recursion depth, nz outside
+    parents Z (no bidirected edge into T, so T stays a district of G) and nd descendants outside T"""
+    for _ in range(50):
+        base = rng.choice(["AeqC", "AeqC", "TeqC", "fail"]) if depth else rng.choice(["AeqC", "TeqC", "fail"])
+        # keep the whole graph within 8 nodes (all-binary exact evaluation): |T| = |C| + (0|1) + 2 * depth
+        csize = {0: None, 1: None, 2: rng.choice([1, 1, 2])}.get(depth, 1)
+        T, di, bi, Cs = _grow_district(rng, depth, base, csize)
+        room = 8 - len(T)
+        if room < 0:
+            continue
+        nz, nd = min(nz, room), min(nd, max(0, room - nz))
+        if not S.is_acyclic(T, di) or len(S.districts_of(bi, T)) != 1:
+            continue
+        st, verdict = identify_trace(di, bi, Cs, T)
+        if len(st) != depth:
+            continue
+        di, bi = _decorate(rng, T, di, bi, Cs, depth, verdict, tries=rng.choice([0, 2, 5]))
+        n = len(T)
+        Z = list(range(n, n + nz))
+        D = list(range(n + nz, n + nz + nd))
+        di = list(di)
+        bi = list(bi)
+        for z in Z:
+            kids = rng.sample(T, min(len(T), rng.choice([1, 1, 2, 3])))
+            if rng.random() < 0.7:                    # make the outside parent matter for C
+                kids.append(rng.choice(sorted(S.ancestors_in(di, T, Cs))))
+            di += [(z, k) for k in set(kids)]
+        if len(Z) == 2:
+            r = rng.random()
+            if r < 0.3:
+                di.append((Z[0], Z[1]))
+            elif r < 0.5:
+                bi.append((Z[0], Z[1]))
+        for d in D:
+            di.append((rng.choice(T), d))
+            if Z and rng.random() < 0.4:
+                di.append((rng.choice(Z), d))
+        # names: Z first (lowest integers = alphabetically first) half of the time, otherwise any injection
+        total = n + nz + nd
+        if rng.random() < 0.5:
+            lowz = list(range(nz))
+            rest = list(range(nz, total))
+            rng.shuffle(rest)
+            ren = dict(zip(Z, lowz))
+            ren.update(zip(T + D, rest))
+        else:
+            perm = list(range(total))
+            rng.shuffle(perm)
+            ren = dict(zip(T + Z + D, perm))
+        di2 = [[ren[a], ren[b]] for a, b in di]
+        bi2 = [[ren[a], ren[b]] if rng.random() < 0.5 else [ren[b], ren[a]] for a, b in bi]
+        rng.shuffle(di2)
+        rng.shuffle(bi2)
+        nodes = [ren[v] for v in T + Z + D]
+        rng.shuffle(nodes)
+        g = {"nodes": nodes, "di": di2, "bi": bi2}
+        return g, sorted(ren[v] for v in T), sorted(ren[v] for v in Cs), depth, verdict
+    return None
+
+
+def _gen_recursion(rng, tier, plan):
+    """IDENTIFY cases with a prescribed recursion depth, every form of Q[T], several (all, when few) topological
+    orders.  plan: list of (depth, number of graphs)."""
+    out = []
+    for depth, count in plan:
+        for _ in range(count):
+            nz = rng.choice([1, 1, 1, 2, 0])
+            nd = rng.choice([0, 0, 1])
+            if depth >= 3:
+                nz, nd = rng.choice([0, 1]), 0
+            sg = _structured_graph(rng, depth, nz, nd)
+            if sg is None:
+                continue
+            g, T, Cs0, _, _ = sg
+            V = G.all_nodes(g)
+            di = [tuple(e) for e in g["di"]]
+            bi = [tuple(e) for e in g["bi"]]
+            binary = len(V) >= 6
+            evaluate = _eval_cost(V, di, bi) <= (3e5 if tier == "quick" else 2e6)
+            base = {"g": g, "scm_seed": rng.randrange(1 << 30), "evaluate": evaluate, "q_by_construction": True}
+            if binary:
+                base["cards"] = [2]
+            # the designed C plus neighbours: other single-district subsets of T that also recurse
+            subs = [Cs0]
+            others = [c for c in _subsets_single_district(rng, bi, T, 12)
+                      if sorted(c) != Cs0 and len(identify_trace(di, bi, c, T)[0]) >= 1]
+            rng.shuffle(others)
+            subs += [sorted(c) for c in others[:2 if depth < 3 else 1]]
+            cands = _district_q_candidates(rng, g, T, V, di, want=ALL_QFORMS)
+            for Cs in subs:
+                for kind, q in cands:
+                    many = kind in ("prob", "prob_pa", "pprob", "iprob", "iprob_mixed")
+                    k = (4 if many else 1) if tier == "quick" else (8 if many else 3)
+                    if depth >= 2 and q[0] not in ("P", "PP") and (len(V) > 7 or rng.random() < 0.5):
+                        continue        # nested Lemma-4 ratios: the estimand doubles in size with every level
+                    for topo in _orders(rng, V, di, k):
+                        topo = list(topo)
+                        if rng.random() < 0.1:
+                            topo.insert(rng.randrange(len(topo) + 1), 95)
+                        out.append(dict(base, op="identify", C=Cs, T=T, topo=topo, q=q, qkind="S_" + kind))
+            # the intermediate objects of the recursion, called directly: (A, Q[A]) -> Q[T'] for every district of G_A
+            steps, _ = identify_trace(di, bi, Cs0, T)
+            for (Tk, Ak, Tpk) in steps[:1]:
+                forms = _subset_q_candidates(rng, T, Ak, cands)
+                if tier == "quick" and len(forms) > 6:
+                    forms = rng.sample(forms, 6)
+                out += _cfactor_cases(rng, tier, base, V, di, bi, set(Ak), forms, "S_anc_of_T")
+    return out
+
+
+def _subset_q_candidates(rng, T, A, cands):
+    """expressions for Q[A], A an ancestral subset of the district T, from the candidates for Q[T]:
+    Sum_{T\\A} Q[T] (Lemma 3) for every form, and the marginal probability with the same conditioning set /
+    intervention for the bare probabilities (what IDENTIFY builds itself)"""
+    out = []
+    rest = sorted(set(T) - set(A))
+    for kind, q in cands:
+        if kind == "prob_redundant":
+            continue
+        out.append(("sumof_" + kind, eSum(rest, q)))
+        if q[0] in ("P", "PP"):
+            k = 1 if q[0] == "P" else 2
+            ch = [v for v in q[k] if int(v[1]) in set(A)]
+            out.append(("marg_" + kind, q[:k] + [ch, q[k + 1]]))
+    return out
+
+
+def _cfactor_cases(rng, tier, base, V, di, bi, H, qforms, label):
+    """direct calls of the five c-factor routines on (H, Q[H]) for every form, every district of G_H, several
+    orders (one of them, when it exists, putting a variable outside the requested district last)"""
+    out = []
+    H = set(H)
+    hd = [sorted(d) for d in S.districts_of(bi, H)]
+    hdi = [e for e in di if e[0] in H and e[1] in H]
+    k = 3 if tier == "quick" else 6
+    for kind, q in qforms:
+        tag = label + "_" + kind
+        for d in hd:
+            last_outside = lambda o, d=d: [v for v in o if v in H][-1] not in d  # noqa: E731
+            for topo in _orders(rng, V, di, k, must=last_outside):
+                topo = list(topo)
+                htopo = [v for v in topo if v in H]
+                dd = list(d)
+                rng.shuffle(dd)
+                if rng.random() < 0.1:
+                    topo.insert(rng.randrange(len(topo) + 1), 96)
+                out.append(dict(base, op="c_factor", district=dd, H=sorted(H), topo=topo, q=q, qkind=tag))
+                if rng.random() < 0.5:
+                    out.append(dict(base, op="lemma4", district=dd, H=sorted(H), topo=htopo, q=q, qkind=tag))
+                if q[0] in ("P", "PP") and rng.random() < 0.5:
+                    out.append(dict(base, op="lemma1", district=dd, H=sorted(H), topo=htopo, q=q, qkind=tag))
+        topo = S.random_linear_extension(rng, V, di)
+        htopo = [v for v in topo if v in H]
+        for vtx in rng.sample(htopo + [None], min(2, len(htopo) + 1)):
+            out.append(dict(base, op="low_index", vertex=vtx, H=sorted(H), topo=htopo, q=q, qkind=tag))
+        A = sorted(S.ancestors_in(hdi, H, G.rand_subset(rng, sorted(H), p=rng.choice([0.3, 0.6]))))
+        out.append(dict(base, op="ancestral", A=A, H=sorted(H), topo=topo, q=q, qkind=tag))
+    return out
+
+
+def _whole_graph_qforms(rng, V, di, H):
+    """expressions for Q[H], H an ancestral set of G: P(H), PP(H), Sum_{V\\H} P(V), Sum of the chain-rule product,
+    the chain-rule product of H itself, P(H)/1 and the Lemma-4 style product of ratios"""
+    H = set(H)
+    hs = sorted(H)
+    rest = sorted(set(V) - H)
+    joint = eP(sorted(V))
+    order = S.random_linear_extension(rng, V, di)
+    horder = [v for v in order if v in H]
+    chain_v = eProd([eP([t], sorted(order[:i])) for i, t in enumerate(order)])
+    chain_h = eProd([eP([t], sorted(horder[:i])) for i, t in enumerate(horder)])
+    out = [("prob", eP(hs)), ("pprob", eP(hs, pop=1002)), ("frac1", ["frac", eP(hs), "one"])]
+    if rest:
+        out.append(("sum", eSum(rest, joint)))
+        out.append(("sumchain", eSum(rest, chain_v)))
+    if len(horder) > 1:
+        out.append(("chain", chain_h))
+        ph = eP(hs)
+        out.append(("ratios", eProd([["frac", eSum(horder[i + 1:], ph), eSum(horder[i:], ph)] if i else
+                                      eSum(horder[1:], ph) for i in range(len(horder))])))
+    return out
+
+
+def _gen_cfactor(rng, tier, n_graphs):
+    """direct calls of the c-factor routines: graphs with >= 2 districts (a district chain broken by directed-only
+    nodes), H = V and every ancestral set with >= 2 districts, every expression form, every district, orders chosen
+    among ALL linear extensions"""
+    out = []
+    made = 0
+    while made < n_graphs:
+        n = rng.choice([3, 4, 4, 5, 5])
+        g = G.rand_graph(rng, n, n, acyclic=True, pd=rng.choice([0.3, 0.5, 0.7]), pb=rng.choice([0.15, 0.25, 0.4]))
+        V = G.all_nodes(g)
+        di = [tuple(e) for e in g["di"]]
+        bi = [tuple(e) for e in g["bi"]]
+        if len(V) < 3 or len(S.districts_of(bi, V)) < 2 or _eval_cost(V, di, bi) > 3e5:
+            continue
+        made += 1
+        base = {"g": g, "scm_seed": rng.randrange(1 << 30), "evaluate": True, "q_by_construction": True}
+        ancs = {frozenset(S.ancestors_in(di, V, G.rand_subset(rng, V, p=0.5))) for _ in range(6)}
+        ancs = [set(a) for a in ancs if len(a) >= 2 and len(S.districts_of(bi, a)) >= 2 and set(a) != set(V)]
+        rng.shuffle(ancs)
+        for H in [set(V)] + ancs[:1]:
+            forms = _whole_graph_qforms(rng, V, di, H)
+            if tier == "quick" and len(forms) > 5:
+                forms = forms[:1] + rng.sample(forms[1:], 4)
+            out += _cfactor_cases(rng, tier, base, V, di, bi, H, forms, "S_anc")
+    return out
+
+
 def _gen_malformed(rng, n):
     out = []
     exprs = ["one", "zero", ["Q", [pv(0)], [pv(1)]], eP([0, 1]), eP([0], [1], pop=1001),
@@ -374,9 +702,13 @@ def _corpus():
 def cases(rng: random.Random, tier: str):
     out = _corpus()
     if tier == "quick":
-        out += _gen_valid(rng, tier, 220, 5)
-        out += _gen_malformed(rng, 500)
+        out += _gen_recursion(rng, tier, [(0, 6), (1, 34), (2, 22), (3, 8)])
+        out += _gen_cfactor(rng, tier, 45)
+        out += _gen_valid(rng, tier, 110, 5)
+        out += _gen_malformed(rng, 400)
     else:
+        out += _gen_recursion(rng, tier, [(0, 20), (1, 120), (2, 80), (3, 30), (4, 6)])
+        out += _gen_cfactor(rng, tier, 200)
         out += _gen_valid(rng, tier, 1000, 5)
         out += _gen_valid(rng, tier, 300, 6)
         out += _gen_malformed(rng, 3000)
@@ -436,13 +768,22 @@ def _py_out(status, val):
 
 # ------------------------------------------------------------------------------------------ oracle
 
-@functools.lru_cache(maxsize=6)
-def _model(gkey, seed, which):
+@functools.lru_cache(maxsize=8)
+def _model_c(gkey, seed, which, cards):
     g = json.loads(gkey)
     V = G.all_nodes(g)
     rng = random.Random(seed * 31 + which)
-    scm = S.Scm(V, g["di"], g["bi"], rng, cards=(2, 3) if len(V) <= 4 else (2, 2, 3))
+    if cards is None:
+        cards = (2, 3) if len(V) <= 4 else (2, 2, 3)
+    scm = S.Scm(V, g["di"], g["bi"], rng, cards=cards, extra_latents=len(V) <= 6)
     return scm, S.Evaluator(scm)
+
+
+def _model(case, which):
+    """the two shared random models of a case (cached per graph: all cases of one graph evaluate on the same
+    tables; Scm caches Q[S] per set and per latent-connected group, the Evaluator caches every sub-expression)"""
+    cards = tuple(case["cards"]) if case.get("cards") else None
+    return _model_c(json.dumps(case["g"], sort_keys=True), case.get("scm_seed", 0), which, cards)
 
 
 def _preconditions(case):
@@ -504,10 +845,9 @@ def _oracle(case, status, val):
         if status == "err" and case.get("q_by_construction"):
             return f"{case['op']}: raised {val} on an input that satisfies the preconditions", info
         return None, info
-    gkey = json.dumps(case["g"], sort_keys=True)
     hyp = True
     for which in (0, 1):
-        scm, ev = _model(gkey, case.get("scm_seed", 0), which)
+        scm, ev = _model(case, which)
         try:
             bad = ev.equals_full(case["q"], scm.q(given))
         except (S.Unsupported, S.DivisionByZero):
@@ -527,7 +867,7 @@ def _oracle(case, status, val):
         return None, info
     info["result"] = "expr"
     for which in (0, 1):
-        scm, ev = _model(gkey, case.get("scm_seed", 0), which)
+        scm, ev = _model(case, which)
         try:
             diff = ev.equals_full(val, scm.q(target))
         except S.DivisionByZero:
@@ -551,14 +891,37 @@ def run_python(case):
             "outcome": "err:" + str(val) if status == "err" else ("none" if val is None else "expr"),
             "valid": info.get("valid"), "hypothesis_holds": info.get("hypothesis"),
             "qtype": case["q"] if isinstance(case["q"], str) else case["q"][0]}
+    di = [tuple(e) for e in g["di"]]
+    bi = [tuple(e) for e in g["bi"]]
+    q = case["q"]
+    qform = tags["qtype"]
+    if qform in ("P", "PP"):
+        k = 1 if qform == "P" else 2
+        cond = bool(q[k + 1])
+        do = any(v[4] for v in q[k] + q[k + 1])
+        qform += ("[do]" if do else "") + ("(T|Z)" if cond else "(T)")
     if case["op"] == "identify" and info.get("valid"):
-        di = [tuple(e) for e in g["di"]]
+        steps, verdict = identify_trace(di, bi, case["C"], case["T"])
         A = S.ancestors_in(di, case["T"], case["C"])
         branch = "A=C" if A == set(case["C"]) else ("A=T" if A == set(case["T"]) else "recurse")
         tags["branch"] = branch + "/" + tags["qtype"]
         nontrivial = nontrivial and branch == "recurse"
+        if info.get("hypothesis"):
+            # shape of the run, computed from the case itself (not from the generator's intention)
+            tags["shape"] = f"identify/depth{len(steps)}/{verdict}/{qform}"
+            tags["depth"] = len(steps)
+            if len(steps) >= 1 and qform == "P(T|Z)":
+                tags["target_shape"] = "C17a:cond-plain-P,recursive" + (",depth>=2" if len(steps) >= 2 else "")
     elif info.get("valid"):
         nontrivial = nontrivial and len(case["H"]) >= 2
+        if info.get("hypothesis"):
+            H = set(case["H"])
+            nd = len(S.districts_of(bi, H))
+            tags["shape"] = f"{case['op']}/{qform}/districts={min(nd, 3)}{'+' if nd > 3 else ''}"
+            if case["op"] in ("c_factor", "lemma4") and nd >= 2 and tags["qtype"] in ("prod", "sum", "frac"):
+                htopo = [v for v in case["topo"] if v in H]
+                if htopo and htopo[-1] not in set(case["district"]):
+                    tags["target_shape"] = f"C17b:{case['op']},lemma4-form,>=2districts,last-var-outside-district"
     return {"out": out, "fail": fail, "nontrivial": nontrivial, "tags": tags}
 
 
@@ -585,6 +948,41 @@ def request(case):
 DRIFT = {"n": 0}
 
 
+class _ModelOut(list):
+    """the canonical model output; compared with the canonical Python output structurally first and - only if they
+    differ - by exact evaluation of both expressions on the shared random models (the real code is re-run for that)"""
+
+    def bind(self, case, body):
+        self._case, self._body = case, body
+        return self
+
+    def __eq__(self, other):
+        if list.__eq__(self, other):
+            return True
+        return self._fallback(other)
+
+    def __ne__(self, other):
+        return not self.__eq__(other)
+
+    __hash__ = None
+
+    def _fallback(self, py):
+        import time
+        case = self._case
+        if not (isinstance(py, list) and py[:1] == ["ok"] and len(py) == 2 and py[1] != "none"):
+            return False
+        if DRIFT.get("spent", 0.0) > 90.0 or not case.get("evaluate", True):   # budget of the fall-back (s per run)
+            return False
+        t0 = time.time()
+        try:
+            status, val = _call(case)
+            if status != "ok" or val is None:
+                return False
+            return _same_by_evaluation(case, val, self._body, py, list(self)[1]) == py
+        finally:
+            DRIFT["spent"] = DRIFT.get("spent", 0.0) + time.time() - t0
+
+
 def canon_model(case, rep):
     if rep[0] == "err":
         return ["err"]
@@ -593,28 +991,14 @@ def canon_model(case, rep):
     body = rep[1]
     if body == "none":
         return ["ok", "none"]
-    m = canon_expr(body)[0]
-    # structural comparison first; on a structural difference fall back to exact evaluation on a shared model
-    status, val = _call(case)
-    py = _py_out(status, val)
-    if py == ["ok", m] or status != "ok" or val is None:
-        return ["ok", m]
-    import time
-    if DRIFT.get("spent", 0.0) > 90.0:      # budget of the evaluation fall-back (seconds per run)
-        return ["ok", m]
-    t0 = time.time()
-    try:
-        return _same_by_evaluation(case, val, body, py, m)
-    finally:
-        DRIFT["spent"] = DRIFT.get("spent", 0.0) + time.time() - t0
+    return _ModelOut(["ok", canon_expr(body)[0]]).bind(case, body)
 
 
 def _same_by_evaluation(case, val, body, py, m):
     try:
-        gkey = json.dumps(case["g"], sort_keys=True)
         for which in (0, 1):
-            scm, ev = _model(gkey, case.get("scm_seed", 0), which)
-            if len(scm.nodes) > 6 or not ev.same(val, body):
+            scm, ev = _model(case, which)
+            if len(scm.nodes) > 8 or not ev.same(val, body):
                 return ["ok", m]
     except (S.Unsupported, S.DivisionByZero, KeyError):
         return ["ok", m]
